@@ -154,6 +154,45 @@ Theorem C09_linear_whole_spline_is_increasing_onto : forall (bx : @box R) (u : l
 Proof. intros bx u H1 H2 H3. apply linear_whole; assumption. Qed.
 Print Assumptions C09_linear_whole_spline_is_increasing_onto.
 
+(* ... and it is ONTO [bottom, top], with the inverse branch as its two-sided inverse: together with the statement above the whole
+   piecewise-linear spline is a strictly increasing bijection of [left, right] onto [bottom, top] for any unnormalised pdf *)
+Theorem C09_linear_whole_spline_is_a_bijection : forall (bx : @box R) (u : list R),
+  u <> [] -> b_left bx < b_right bx -> b_bottom bx < b_top bx ->
+  (forall y, b_bottom bx <= y <= b_top bx ->
+     exists x l, linear_spline Rops true bx u y = Ok (x, l) /\ (b_left bx <= x <= b_right bx) /\ FL bx u x = y) /\
+  (forall x, b_left bx <= x <= b_right bx -> exists l, linear_spline Rops true bx u (FL bx u x) = Ok (x, l)).
+Proof.
+  intros bx u H1 H2 H3. split.
+  - intros y Hy. destruct (linear_forward_of_inverse bx u H1 H2 H3 y Hy) as [x [l [E [Hx [Hf _]]]]]. exists x, l. repeat split; assumption || apply Hx.
+  - intros x Hx. eexists. apply linear_inverse_of_forward; assumption.
+Qed.
+Print Assumptions C09_linear_whole_spline_is_a_bijection.
+
+(* ---- the WHOLE piecewise-quadratic spline (bounded form, K + 1 unnormalised heights): for the configuration checks the code
+   makes (0 <= min_bin_width, min_bin_width * K <= 1, the same for the height) and ALL unnormalised parameters, the bin widths
+   are positive and sum to one, the node heights are positive and normalised so that the trapezoid areas sum to one, both
+   cumulative tables are strictly increasing from 0 to 1, and the whole spline is a strictly increasing bijection of
+   [left, right] onto [bottom, top] with pinned end points whose inverse branch (stable quadratic root) is its two-sided inverse ---- *)
+From NF Require Import Model.SplineQuadratic Proofs.SplineQuadWhole.
+Theorem C09_quadratic_whole_spline_is_an_increasing_bijection :
+  forall (minw minh : R) (bx : @box R) (uw uh : list R),
+  uw <> [] -> length uh = S (length uw) -> 0 <= minw -> minw * INR (length uw) <= 1 -> 0 <= minh -> minh * INR (length uw) <= 1 ->
+  b_left bx < b_right bx -> b_bottom bx < b_top bx ->
+  (forall x, b_left bx <= x <= b_right bx ->
+     exists y l, quadratic_spline Rops minw minh false bx uw uh x = Ok (y, l) /\ (b_bottom bx <= y <= b_top bx) /\ (exists d, 0 < d /\ l = ln d)) /\
+  (QF minw minh bx uw uh (b_left bx) = b_bottom bx /\ QF minw minh bx uw uh (b_right bx) = b_top bx) /\
+  (forall a b, b_left bx <= a -> a < b -> b <= b_right bx -> QF minw minh bx uw uh a < QF minw minh bx uw uh b) /\
+  (forall y, b_bottom bx <= y <= b_top bx ->
+     exists x l, quadratic_spline Rops minw minh true bx uw uh y = Ok (x, l) /\ (b_left bx <= x <= b_right bx) /\ QF minw minh bx uw uh x = y).
+Proof.
+  intros minw minh bx uw uh H1 H2 H3 H4 H5 H6 H7 H8.
+  destruct (quadratic_whole minw minh bx uw uh H1 H2 H3 H4 H5 H6 H7 H8) as [A [B C]].
+  split; [exact A|]. split; [exact B|]. split; [exact C|].
+  intros y Hy. destruct (quadratic_forward_of_inverse minw minh bx uw uh H1 H2 H3 H4 H5 H6 H7 H8 y Hy) as [x [l [E [Hx [Hf _]]]]].
+  exists x, l. split; [exact E|]. split; [exact Hx | exact Hf].
+Qed.
+Print Assumptions C09_quadratic_whole_spline_is_an_increasing_bijection.
+
 (* ---- the UNCONSTRAINED rational-quadratic spline (linear tails): the identity outside [-B, B], the whole-spline bijection
    inside; the two meet at +-B, so the map is strictly increasing on the whole real line and takes every value ---- *)
 From NF Require Import Proofs.SplineRQTails.
@@ -193,3 +232,22 @@ Theorem C09_cubic_derivatives_are_admissible :
      0 < d /\ d <= 2 * s1 /\ d <= 2 * s2).
 Proof. split; [exact boundary_derivative_in_range | exact inner_derivative_in_range]. Qed.
 Print Assumptions C09_cubic_derivatives_are_admissible.
+
+(* ---- the WHOLE monotone-cubic (Steffen) spline, forward direction: for the configuration checks the code makes and ALL
+   unnormalised parameters, every input of the box is accepted (valid bin), mapped into [bottom, top] with a log-abs-det that is
+   the logarithm of a positive derivative, the end points are pinned and the map is strictly increasing across bins - because the
+   generated boundary (sigmoid * 3 * slope) and interior (Steffen limiter) derivatives are admissible for BOTH adjacent bins.  The
+   inverse branch is not claimed: its root selection is the recorded known finding. ---- *)
+From NF Require Import Model.SplineCubic Proofs.SplineCubicWhole.
+Theorem C09_cubic_whole_spline_forward_is_increasing_onto_its_range :
+  forall (minw minh eps thr : R) (bx : @box R) (uw uh : list R) (ul ur : R),
+  uw <> [] -> length uh = length uw -> 0 <= minw -> minw * INR (length uw) <= 1 -> 0 <= minh -> minh * INR (length uw) <= 1 ->
+  b_left bx < b_right bx -> b_bottom bx < b_top bx ->
+  (forall x, b_left bx <= x <= b_right bx ->
+     exists y l, cubic_spline Rops minw minh eps thr false bx uw uh ul ur x = Ok (y, l) /\ (b_bottom bx <= y <= b_top bx) /\
+                 (exists d, 0 < d /\ l = ln d)) /\
+  (CF minw minh eps thr bx uw uh ul ur (b_left bx) = b_bottom bx /\ CF minw minh eps thr bx uw uh ul ur (b_right bx) = b_top bx) /\
+  (forall a b, b_left bx <= a -> a < b -> b <= b_right bx -> CF minw minh eps thr bx uw uh ul ur a < CF minw minh eps thr bx uw uh ul ur b).
+Proof. intros minw minh eps thr bx uw uh ul ur H1 H2 H3 H4 H5 H6 H7 H8. apply cubic_whole; assumption. Qed.
+Print Assumptions C09_cubic_whole_spline_forward_is_increasing_onto_its_range.
+
